@@ -5,11 +5,11 @@ package props
 // DESIGN.md §2.2.  Nothing here reads the wall clock or an RNG.
 
 import (
-	"math/big"
-	"strings"
 	"encoding/json"
 	"fmt"
+	"math/big"
 	"sort"
+	"strings"
 	"time"
 
 	c4eapp "github.com/chain4energy/c4e-chain/app"
